@@ -317,7 +317,7 @@ func (tx *Tx) Inter(keys ...string) ([]core.Value, error) {
 		return nil, nil
 	}
 	query, keyArgs := sqlx.ExpandIn(sqlInter, ":keys", keys)
-	args := append(keyArgs, time.Now().UnixMilli(), len(keys))
+	args := append(keyArgs, time.Now().UnixMilli(), countDistinct(keys))
 	return tx.selectElems(query, args)
 }
 
@@ -348,7 +348,7 @@ func (tx *Tx) InterStore(dest string, keys ...string) (int, error) {
 
 	// Intersect the source sets and store the result.
 	query, keyArgs := sqlx.ExpandIn(sqlInterStore, ":keys", keys)
-	args := slices.Concat([]any{destID}, keyArgs, []any{now, len(keys)})
+	args := slices.Concat([]any{destID}, keyArgs, []any{now, countDistinct(keys)})
 	return tx.store(query, args)
 }
 
@@ -597,4 +597,14 @@ func (tx *Tx) selectElems(query string, args []any) ([]core.Value, error) {
 type ScanResult struct {
 	Cursor int
 	Items  []core.Value
+}
+
+// countDistinct returns the number of distinct keys. A key repeated in the
+// argument list names one set, which the SQL `key in (...)` matches once.
+func countDistinct(keys []string) int {
+	seen := make(map[string]struct{}, len(keys))
+	for _, key := range keys {
+		seen[key] = struct{}{}
+	}
+	return len(seen)
 }
